@@ -193,6 +193,7 @@ CHECKS = {
                               "half B runs over loopback TCP in real time with RetryBaseDelay 1 ms / RetryMaxDelay 2 ms"],
         parts=[
             dict(name="random", run="TestC18Random", checks=dict(quick=3000, thorough=20000), shards=dict(quick=1, thorough=16)),
+            dict(name="lifetime", run="TestC18Lifetime", checks=dict(quick=5000, thorough=20000), shards=dict(quick=1, thorough=8)),
             dict(name="transport", run="TestC18Transport", checks=dict(quick=40, thorough=250), shards=dict(quick=1, thorough=4)),
         ],
     ),
@@ -230,6 +231,13 @@ CHECKS = {
             dict(name="random", run="TestC16Random", checks=dict(quick=3000, thorough=30000), shards=dict(quick=1, thorough=16)),
             # free-running: the windows inside one release/acquire (last release racing a new request) on the real scheduler; holder-local oracles
             dict(name="stress", run="TestC16Stress", rapid=False, args=dict(quick=["-c16.stress=250"], thorough=["-c16.stress=3000"]), shards=dict(quick=1, thorough=8)),
+            # the stepwise engine (exact model) at sizes beyond 32/64/128: addresses, pending dials, blocked requesters, holders
+            dict(name="wide", run="TestC16Wide", checks=dict(quick=400, thorough=4000), shards=dict(quick=1, thorough=8)),
+            # free-running in virtual time: up to 300 requesters / 375 addresses in one bubble, slow dials, cancellation at every phase, concurrent calls of one done func;
+            # schedule-independent oracles, "every requester returns" decided by bubble quiescence
+            dict(name="storm", run="TestC16Storm", checks=dict(quick=1500, thorough=20000), shards=dict(quick=1, thorough=8)),
+            # real scheduler: calls (same done func from several goroutines, releases, requests) piled up in front of the Manager's lock, which a gated resolver Close keeps busy
+            dict(name="convoy", run="TestC16Convoy", checks=dict(quick=600, thorough=8000), shards=dict(quick=1, thorough=4)),
         ],
     ),
     "C04": dict(
@@ -245,7 +253,7 @@ CHECKS = {
         rule=("cases are scenarios of 6-40 steps; non-trivial = a convergence check was evaluated AND (a writer step ran while a STREAM subscription was parked between its start and its sync, "
               "or a writer was parked between tree write and feed while a subscription's walk was released); distinct = distinct hash of the scenario"),
         assumptions=COMMON + [SYNCTEST_ASSUMPTION],
-        parts=[dict(name="random", run="TestC04Random", checks=dict(quick=3000, thorough=50000), shards=dict(quick=1, thorough=16)),
+        parts=[dict(name="random", run="TestC04Random", checks=dict(quick=2500, thorough=50000), shards=dict(quick=4, thorough=16)),
                # free-running: one writer goroutine per target + staggered subscribers on the real scheduler inside a synctest bubble,
                # no gates; convergence / single sync / no invention at the final quiescent point (synctest.Wait)
                dict(name="stress", run="TestC04Stress", rapid=False, args=dict(quick=["-c04.stress=400"], thorough=["-c04.stress=6000"]), shards=dict(quick=1, thorough=8))],
@@ -260,7 +268,7 @@ CHECKS = {
         level_note="independent matcher gn.Matches + completePath written from the documentation; in-memory stream double",
         rule=("cases are scenarios of 8-30 steps; non-trivial = a completed round with a non-empty result whose subscription has a glob in a non-final position or targets '*'; distinct = distinct hash of the scenario"),
         assumptions=COMMON + [SYNCTEST_ASSUMPTION],
-        parts=[dict(name="random", run="TestC05Random", checks=dict(quick=3000, thorough=50000), shards=dict(quick=1, thorough=16))],
+        parts=[dict(name="random", run="TestC05Random", checks=dict(quick=2500, thorough=50000), shards=dict(quick=4, thorough=16))],
     ),
     "C07": dict(
         engine="subprop",
@@ -271,7 +279,7 @@ CHECKS = {
         level_note="ACL double implements subscribe.ACL/RPCACL from the table; user identity travels in the stream context",
         rule=("cases are scenarios of 8-36 steps; non-trivial = a '*' subscription for which, after its sync, updates were fed both for a denied and for an allowed target; distinct = distinct hash of the scenario"),
         assumptions=COMMON + [SYNCTEST_ASSUMPTION],
-        parts=[dict(name="random", run="TestC07Random", checks=dict(quick=3000, thorough=50000), shards=dict(quick=1, thorough=16))],
+        parts=[dict(name="random", run="TestC07Random", checks=dict(quick=2500, thorough=50000), shards=dict(quick=4, thorough=16))],
     ),
     "C08": dict(
         engine="subprop",
@@ -283,7 +291,7 @@ CHECKS = {
         level_note="the backlog model starts at a drain (queue empty, sender idle) and needs the streaming filter relation (decided by C06); exported queue size only bounded from above",
         rule=("cases are scenarios of 8-40 steps; non-trivial = while a subscriber was stalled a burst contained >=2 updates to one leaf (coalesced) and a delete; distinct = distinct hash of the scenario"),
         assumptions=COMMON + [SYNCTEST_ASSUMPTION],
-        parts=[dict(name="random", run="TestC08Random", checks=dict(quick=3000, thorough=50000), shards=dict(quick=1, thorough=16))],
+        parts=[dict(name="random", run="TestC08Random", checks=dict(quick=2500, thorough=50000), shards=dict(quick=4, thorough=16))],
     ),
     "C11": dict(
         engine="coalesceprop",
@@ -366,6 +374,7 @@ CHECKS = {
         ],
         parts=[
             dict(name="random", run="TestC20Random", checks=dict(quick=10000, thorough=50000), shards=dict(quick=1, thorough=16)),
+            dict(name="shapes", run="TestC20Shapes", checks=dict(quick=1500, thorough=10000), shards=dict(quick=4, thorough=16)),
         ],
     ),
     "C19": dict(
@@ -404,6 +413,14 @@ CHECKS = {
             dict(name="query", run="TestC19Query", checks=dict(quick=20000, thorough=200000), shards=dict(quick=1, thorough=8)),
             dict(name="scalar", run="TestC19Scalar", checks=dict(quick=20000, thorough=200000), shards=dict(quick=1, thorough=8)),
             dict(name="equal", run="TestC19Equal", checks=dict(quick=30000, thorough=200000), shards=dict(quick=1, thorough=8)),
+            # the same five oracles on large shapes: 5-10 keys per element, 50-300 elements, 6-60 query elements, 50-300 leaf-list values, 1-8 KiB strings
+            dict(name="large", run="TestC19Large", checks=dict(quick=4000, thorough=40000), shards=dict(quick=1, thorough=8)),
+            # free-running: 2-16 goroutines repeat their own conversions on shared and private inputs; every result must equal the result of the same call run alone
+            dict(name="concurrent", run="TestC19Concurrent", checks=dict(quick=100, thorough=500), shards=dict(quick=4, thorough=8),
+                 args=dict(quick=["-c19.rounds=300"], thorough=["-c19.rounds=1000"])),
+            # the same part under the race detector: a data race report with a gnmi frame on one of its stacks is a violation
+            dict(name="concurrent-race", run="TestC19Concurrent", race=True, checks=dict(quick=60, thorough=500), shards=dict(quick=2, thorough=4),
+                 args=dict(quick=["-c19.rounds=60"], thorough=["-c19.rounds=200"])),
         ],
     ),
     "C06": dict(
@@ -438,6 +455,7 @@ CHECKS = {
             dict(name="exhaustive", run="TestC06Exhaustive", rapid=False),
             dict(name="random", run="TestC06Random", checks=dict(quick=20000, thorough=100000), shards=dict(quick=1, thorough=8)),
             dict(name="server", run="TestC06Server", checks=dict(quick=4000, thorough=20000), shards=dict(quick=1, thorough=8)),
+            dict(name="inflight", run="TestC06InFlight", checks=dict(quick=3000, thorough=12000), shards=dict(quick=1, thorough=8)),
         ],
     ),
     "C17": dict(
@@ -481,7 +499,11 @@ CHECKS = {
         rule=("cases are histories of 1-60 steps over 1-2 targets; non-trivial = the history contains an update at or below the stored timestamp of an existing leaf "
               "AND a delete that removed at least one leaf; distinct = distinct hash of the scenario"),
         assumptions=COMMON + ["cache.Now is stubbed with a scenario-controlled clock", "single goroutine: every step is a quiescent point"],
-        parts=[dict(name="random", run="TestC02Random", checks=dict(quick=6000, thorough=60000), shards=dict(quick=1, thorough=16))],
+        parts=[dict(name="random", run="TestC02Random", checks=dict(quick=2000, thorough=60000), shards=dict(quick=4, thorough=16)),
+               # one target fed from 2-4 goroutines at once, each writing its own leaves (real scheduler, aligned starts): per-leaf discipline and the
+               # target's latest accepted timestamp must come out as in any sequential order
+               dict(name="parallel", run="TestC02Parallel", checks=dict(quick=120, thorough=600), shards=dict(quick=4, thorough=16),
+                    args=dict(quick=["-c02.rounds=150"], thorough=["-c02.rounds=500"]))],
     ),
     "C03": dict(
         engine="cacheprop",
@@ -494,7 +516,7 @@ CHECKS = {
         rule=("cases are histories of 1-60 steps over 1-3 targets; non-trivial = a delete that produced >=2 feed entries for leaves stored through one shared prefix object, "
               "or a multi-entry notification mixing accepted and rejected updates; distinct = distinct hash of the scenario"),
         assumptions=COMMON + ["cache.Now is stubbed with a scenario-controlled clock", "single goroutine: every step is a quiescent point"],
-        parts=[dict(name="random", run="TestC03Random", checks=dict(quick=5000, thorough=40000), shards=dict(quick=1, thorough=16))],
+        parts=[dict(name="random", run="TestC03Random", checks=dict(quick=2000, thorough=40000), shards=dict(quick=4, thorough=16))],
     ),
     "C14": dict(
         engine="cacheprop",
@@ -507,8 +529,8 @@ CHECKS = {
         rule=("cases are histories of 1-60 steps over 2-4 targets; non-trivial = a Reset or Remove of a target holding >=2 top-level subtrees while another target holds a leaf at one of the same paths; "
               "distinct = distinct hash of the scenario"),
         assumptions=COMMON + ["cache.Now is stubbed with a scenario-controlled clock"],
-        parts=[dict(name="random", run="TestC14Random", checks=dict(quick=5000, thorough=40000), shards=dict(quick=1, thorough=16)),
-               dict(name="subscribers", engine="subprop", run="TestC14Sub", checks=dict(quick=2000, thorough=30000), shards=dict(quick=1, thorough=8))],
+        parts=[dict(name="random", run="TestC14Random", checks=dict(quick=2000, thorough=40000), shards=dict(quick=4, thorough=16)),
+               dict(name="subscribers", engine="subprop", run="TestC14Sub", checks=dict(quick=1500, thorough=30000), shards=dict(quick=4, thorough=8))],
     ),
     "C15": dict(
         engine="cacheprop",
